@@ -873,16 +873,13 @@ impl ProxyServer {
 
         // sign the request
         // Add header x-ms-azure-host-authorization
-        if let (Some(key), Some(key_guid)) = (
-            self.key_keeper_shared_state
-                .get_current_key_value()
-                .await
-                .unwrap_or(None),
-            self.key_keeper_shared_state
-                .get_current_key_guid()
-                .await
-                .unwrap_or(None),
-        ) {
+        if let Some(current_key) = self
+            .key_keeper_shared_state
+            .get_current_key()
+            .await
+            .unwrap_or(None)
+        {
+            let (key, key_guid) = (current_key.key, current_key.guid);
             let input_to_sign = hyper_client::as_sig_input(head, whole_body);
             match helpers::compute_signature(&key, input_to_sign.as_slice()) {
                 Ok(sig) => {
